@@ -1,15 +1,5 @@
 # Per-property claims for MANIFEST.json (executed by gen_manifest.py).
 NA = {}
-NA["C07"] = (
-    "No contract within reach decides this property. It is a whole-image statement that spans HabContainer.load_from_config/export/parse, the BD/YAML "
-    "option parsing, seven segment classes, the CSF command classes and CMS/X.509 signing done inside `cryptography`/OpenSSL: the CMS SignedData "
-    "builder (spsdk/crypto/cms.py) and its verification by an independent implementation are external code that vf cannot bring under contract "
-    "(A-crypto-fun, A-pki), the containers are built from configuration objects and the device database (dict-of-dict YAML data with string keys, "
-    "outside vf's value domain without a model per family), and 'the CMS signature verifies over exactly these blocks' is a statement about that "
-    "external code. The separable arithmetic part (IVT pointers = real positions, block lists cover IVT..application) would need contracts on "
-    "~25 methods of hab_container.py/hab/segments.py/image/segments.py whose state is Python objects with dynamic attributes and bytes built by "
-    "header classes with class-level FORMAT strings; this was not reached in the time available and is not approximated by another technique here. "
-    "A seeded change for it exists (seeded/C07-ivt-csf-pointer-from-padded-size) and is, honestly, NOT detected by anything in /verif.")
 CLAIMED["C20"] = (
     "Every contract clause of the helper functions (align, align_block, extend_block, BinaryPattern.get_block, check_range, "
     "swap16/32, reverse_bytes_in_longs, change_endianness, swap_bytes, get_bytes_cnt_of_int, value_to_int/bool ...) is a named "
@@ -188,3 +178,18 @@ CLAIMED["C08"] = (
     "Not under contract: all key classes, PublicKeyRsa/PublicKeyEcc NXP export + recreate_from_data, serialize_signature, verify_signature, "
     "SignatureProvider; A-crypto-fun, A-crypto-sec, A-pki.",
     "DESIGN.md 7 C08")
+CLAIMED["C07"] = (
+    "Only the arithmetic core of the HAB layout is proved, for all start addresses, IVT offsets, initial load sizes, application lengths and "
+    "flags: the IVT built by IvtHabSegment.load_from_config has self = start + IVT offset, boot data right behind the IVT, DCD pointer iff a DCD "
+    "is configured, entry point as configured, and CSF pointer = self + align_offset(initial load + application length) - IVT offset for "
+    "authenticated/encrypted images (0 otherwise) - the same expression the CSF/BDT segments use for the real placement; "
+    "AppHabSegment.load_from_config places the application at the initial load size, keeps its bytes, zero-pads to 16 only when authenticated; "
+    "lemma: the CSF position is page aligned in the container, at or behind the padded application and the next such boundary. "
+    "Everything else of the property - CSF commands and offsets, CMS signatures verified independently, SRK table/fuses, AES-CCM "
+    "encryption, parse round trip, DCD/XMCD, the BDT length itself - is NOT decided deductively: a bounded sweep builds authenticated and plain "
+    "images (RSA-2048 repository test keys) over three layouts x application lengths dense around the 16 B / 4 KiB boundaries and decodes "
+    "them by hand incl. an independent CMS digest/signature check, labelled bounded.",
+    "Trusted: A-enc, A-smt; BinaryImage.__len__/export and align_block through their verified contracts (C16/C20). Not under contract: "
+    "CsfHabSegment/BdtHabSegment/Dcd/Xmcd.load_from_config, HabContainer.*, image/segments.py, image/commands.py, crypto/cms.py, secret.py "
+    "(A-crypto-fun, A-crypto-sec, A-pki). Encrypted images, ECC keys, SRK tables other than the test table: not exercised even bounded.",
+    "DESIGN.md 0.4 / 7 C07")
